@@ -930,7 +930,7 @@ async fn node_leg(ctx: &Ctx, args: &Args, rt_queries: &tokio::runtime::Runtime, 
     let _ = node.srv.send_stop_signal_and_await_shutdown().await;
 }
 
-fn run_node_legs(ctx: &Ctx, args: &Args, nodes: u64, rounds: u32) {
+fn run_node_legs(ctx: &Ctx, args: &Args, nodes: u64, rounds: u32, only: Option<u64>) {
     let rt = match tokio::runtime::Builder::new_multi_thread().worker_threads(3).enable_all().build() {
         Ok(rt) => rt,
         Err(e) => {
@@ -941,6 +941,9 @@ fn run_node_legs(ctx: &Ctx, args: &Args, nodes: u64, rounds: u32) {
     // ReadView queries are driven with block_on on a separate current-thread runtime
     let rt_queries = Arc::new(tokio::runtime::Builder::new_current_thread().enable_all().build().expect("rt"));
     for idx in 0..nodes {
+        if only.map(|o| o != idx).unwrap_or(false) {
+            continue;
+        }
         let rq = rt_queries.clone();
         if let Err(p) = catch(|| rt.block_on(node_leg(ctx, args, &rq, rounds, idx))) {
             ctx.report.inconclusive(format!("node leg: harness panic: {p}"));
@@ -964,11 +967,12 @@ pub fn run(args: &Args, report: &Report) -> (&'static str, bool, Vec<&'static st
             args2.seed = s;
         }
         let nodes = args.by_tier(2u64, 4);
+        let only = replaying.as_ref().and_then(|r| r.get("node")).and_then(|n| n.as_u64());
         let rounds = args.by_tier(10u32, 16);
         Some(
             std::thread::Builder::new()
                 .stack_size(64 << 20)
-                .spawn(move || run_node_legs(&ctx2, &args2, nodes, rounds))
+                .spawn(move || run_node_legs(&ctx2, &args2, nodes.max(only.map(|o| o + 1).unwrap_or(0)), rounds, only))
                 .expect("spawn"),
         )
     } else {
@@ -977,7 +981,7 @@ pub fn run(args: &Args, report: &Report) -> (&'static str, bool, Vec<&'static st
 
     if !node_replay {
         let shards = args.by_tier(16usize, 32);
-        let sessions = args.by_tier(20usize, 60);
+        let sessions = args.by_tier(20usize, 240);
         let blocks = args.by_tier(12u32, 16);
         let c = ctx.clone();
         for_each_session(args, report, shards, sessions, move |case, rng| run_session(&c, case, rng, blocks));
@@ -990,7 +994,7 @@ pub fn run(args: &Args, report: &Report) -> (&'static str, bool, Vec<&'static st
 
     if replaying.is_none() && ctx.selftest == 0 {
         // observed at quick seed 1 (16 shards x 20 sessions x 12 blocks): about 2.5x the figures below
-        let k = args.by_tier(1u64, 6);
+        let k = args.by_tier(1u64, 25);
         for (key, min) in [
             ("c36.blocks", 2800u64),
             ("c36.nontrivial_blocks", 1700),
